@@ -38,6 +38,15 @@ pub mod ext {
     pub assume_specification<T: std::default::Default> [std::mem::take] (x: &mut T) -> (r: T)
         ensures r == *old(x), call_ensures(T::default, (), *final(x));
 
+    // ---- Option combinators vstd lacks (ASSUMED, standard meaning)
+    pub assume_specification<T> [Option::<T>::or] (a: Option<T>, b: Option<T>) -> (r: Option<T>)
+        ensures r == (if a is Some { a } else { b });
+    pub assume_specification<T, F: FnOnce(&T) -> bool> [Option::<T>::filter] (o: Option<T>, f: F) -> (r: Option<T>)
+        ensures match o {
+            None => r is None,
+            Some(x) => (call_ensures(f, (&x,), true) && r == Some(x)) || (call_ensures(f, (&x,), false) && r is None),
+        };
+
     // RefCell: contents are opaque (DESIGN 1.3): a borrow yields an arbitrary value of T.
     pub assume_specification<T: ?Sized> [RefCell::<T>::borrow_mut] (c: &RefCell<T>) -> (r: RefMut<'_, T>);
     pub assume_specification<T: ?Sized> [RefCell::<T>::try_borrow_mut] (c: &RefCell<T>) -> (r: Result<RefMut<'_, T>, std::cell::BorrowMutError>);
